@@ -293,4 +293,31 @@ theorem insertInlineOp_residual (S : Schema) (hS : S ∈ domFamilySchemas) (tr t
     (family_textStableC _ (domFamily_sub _ hS)) (family_closable _ (domFamily_sub _ hS))
     (family_textStable _ hS) tr tr1 hlen hml hI hb hattrs f t hft sl hsl hslv hsb h hnorm
 
+/-- `PM.C04.editHistory_undo'` with its schema guards discharged for the bundled schema family -/
+theorem editHistory_undo' (S : Schema) (hS : S ∈ domFamilySchemas) (doc : Node) (ops : List Op) (tr' : Tr)
+    (hd : S.checkNode doc = true) (hn : fnorm doc.kids = true) (hb : bmpDoc doc = true)
+    (hall : ∀ op ∈ ops, editOp op = true) (h : (Tr.init doc).runOps S ops = some tr')
+    (hres : OpsAll S (EditHyps' S) (Tr.init doc) ops) :
+    tr'.undo S = .ok doc ∧ FamilyInv S tr'.doc :=
+  PM.C04.editHistory_undo' S (family_compatTrans _ (domFamily_sub _ hS))
+    (textLoop_of_B _ (family_textLoop _ (domFamily_sub _ hS))) (family_det _ (domFamily_sub _ hS))
+    (family_fillersOK _ (domFamily_sub _ hS)) (family_wrapOK _ (domFamily_sub _ hS))
+    (family_labelsOK _ (domFamily_sub _ hS)) (family_leafOk _ (domFamily_sub _ hS))
+    (family_textStableC _ (domFamily_sub _ hS)) (family_closable _ (domFamily_sub _ hS))
+    (family_textStable _ hS) doc ops tr' hd hn hb hall h hres
+
+/-- `PM.C04.insertInlineOp_residual'` with its schema guards discharged for the bundled schema family -/
+theorem insertInlineOp_residual' (S : Schema) (hS : S ∈ domFamilySchemas) (tr tr1 : Tr)
+    (hlen : tr.steps.length = tr.docs.length) (hml : tr.maps.length = tr.steps.length) (hI : FamilyInv S tr.doc)
+    (hb : bmpDoc tr.doc = true) (hattrs : S.nodeAttrsOK tr.doc = true) (f t : Nat) (hft : f ≤ t) (sl : Slice)
+    (hsl : sl.inlineLeaves S = true) (hslv : sl.closedValid S = true) (hsb : sliceBmp sl = true)
+    (hsn : fnorm sl.content = true) (h : tr.runOp S (.replace f t sl) = some tr1) :
+    OpResidual S (.replace f t sl) tr tr1 ∧ bmpDoc tr1.doc = true :=
+  PM.C04.insertInlineOp_residual' S (family_compatTrans _ (domFamily_sub _ hS))
+    (textLoop_of_B _ (family_textLoop _ (domFamily_sub _ hS))) (family_det _ (domFamily_sub _ hS))
+    (family_fillersOK _ (domFamily_sub _ hS)) (family_wrapOK _ (domFamily_sub _ hS))
+    (family_labelsOK _ (domFamily_sub _ hS)) (family_leafOk _ (domFamily_sub _ hS))
+    (family_textStableC _ (domFamily_sub _ hS)) (family_closable _ (domFamily_sub _ hS))
+    (family_textStable _ hS) tr tr1 hlen hml hI hb hattrs f t hft sl hsl hslv hsb hsn h
+
 end PM.Family.C04
